@@ -308,21 +308,83 @@ def same_bits(a, b):
     return (a32.view(np.uint32) == b32.view(np.uint32)) | (np.isnan(a32) & np.isnan(b32))
 
 
-class RecordingWCS(object):
-    """Stands in for the WCS inside WcsSampler: records what wcs_pix2world is asked, forwards everything."""
+PIX2WORLD_METHODS = ("wcs_pix2world", "all_pix2world")
+_REC_CLASS = []
 
-    def __init__(self, wcs):
-        self._w = wcs
-        self.calls = []
 
-    def wcs_pix2world(self, pix, origin):
-        import numpy as np
-        r = self._w.wcs_pix2world(pix, origin)
-        self.calls.append((np.array(pix, dtype=float), int(origin), np.array(r, dtype=float)))
-        return r
+def _rec_entry(name, args):
+    """(method, 1-based pixel coordinates as an (n, 2) array, origin) of one pixel -> world evaluation, whichever of the two
+    call shapes of astropy was used: (pix[n, 2], origin) or (x, y, origin)."""
+    import numpy as np
+    origin = int(args[-1])
+    if len(args) == 2:
+        pix = np.array(args[0], dtype=float).reshape((-1, 2))
+    else:
+        x, y = np.broadcast_arrays(np.asarray(args[0], dtype=float), np.asarray(args[1], dtype=float))
+        pix = np.stack([x.ravel(), y.ravel()], 1)
+    return name, pix + (1.0 - origin), origin
 
-    def __getattr__(self, name):
-        return getattr(self._w, name)
+
+def recording_wcs(w):
+    """Turns the WCS object `w` (a fresh one, used for nothing else) into the recorder that stands in for the WCS inside
+    WcsSampler: it stays a real astropy WCS (frame look-ups, copies, the high-level API all work on it) and notes the pixel
+    coordinates of every OUTERMOST pixel -> world evaluation, by whichever method (wcs_pix2world: core WCS only;
+    all_pix2world: distortion terms applied; pixel_to_world* end up in all_pix2world).  `w.rec_calls` is the record."""
+    from astropy.wcs import WCS
+    if not _REC_CLASS:
+        def wrap(name):
+            def method(self, *args, **kwargs):
+                st = self.__dict__.setdefault("_rec_state", {"calls": [], "depth": 0})
+                if st["depth"] == 0 and len(args) in (2, 3):
+                    try:
+                        st["calls"].append(_rec_entry(name, args))
+                    except Exception:  # noqa  (an argument shape the recorder does not know: the real method will complain)
+                        pass
+                st["depth"] += 1
+                try:
+                    return getattr(WCS, name)(self, *args, **kwargs)
+                finally:
+                    st["depth"] -= 1
+            method.__name__ = name
+            return method
+        _REC_CLASS.append(type("RecordingWCS", (WCS,), {name: wrap(name) for name in PIX2WORLD_METHODS}))
+    w.__class__ = _REC_CLASS[0]
+    w.__dict__["_rec_state"] = {"calls": [], "depth": 0}
+    return w
+
+
+def rec_calls(w):
+    return w.__dict__["_rec_state"]["calls"]
+
+
+# celestial frames a FITS header can name: (longitude axis, latitude axis, RADESYS, has an equinox)
+FRAMES = {
+    "icrs": ("RA--", "DEC-", None, False),
+    "fk5": ("RA--", "DEC-", "FK5", True),
+    "fk4": ("RA--", "DEC-", "FK4", True),
+    "fk4-no-e": ("RA--", "DEC-", "FK4-NO-E", True),
+    "galactic": ("GLON", "GLAT", None, False),
+    "ecliptic": ("ELON", "ELAT", None, False),
+}
+
+
+def pix2sky(w, pts):
+    """1-based pixel coordinates -> ICRS (lon, lat) in radians by the inverse of the route WcsSampler.sampler() takes
+    (world_to_array_index(SkyCoord(icrs))): astropy's high-level API - distortion terms applied, the WCS's own celestial
+    frame converted to ICRS."""
+    import numpy as np
+    pts = np.asarray(pts, dtype=float).reshape((-1, 2))
+    c = w.pixel_to_world(pts[:, 0] - 1.0, pts[:, 1] - 1.0).icrs
+    return np.array(c.ra.rad, dtype=float), np.array(c.dec.rad, dtype=float)
+
+
+def sky2pix(w, lon, lat):
+    """ICRS directions (radians) -> 1-based pixel coordinates (x, y), the sampler's route before rounding."""
+    import numpy as np
+    from astropy import units as u
+    from astropy.coordinates import SkyCoord
+    x, y = w.world_to_pixel(SkyCoord(np.asarray(lon) * u.rad, np.asarray(lat) * u.rad, frame="icrs"))
+    return np.asarray(x, dtype=float) + 1.0, np.asarray(y, dtype=float) + 1.0
 
 
 GRID_VARIANTS = ["none", "right", "smaller", "larger", "header-right", "header-smaller", "rebuilt", "sliced", "header-larger",
@@ -337,17 +399,46 @@ def make_wcs(d):
       right / header-right / sliced               the size of the data (pixel_shape set by hand; WCS(header with NAXISn);
                                                   a larger parent WCS sliced down to the data)
       smaller / header-smaller / array-shape-smaller, larger / header-larger
-                                                  a stale size (e.g. the array was padded and crpix shifted by hand)"""
+                                                  a stale size (e.g. the array was padded and crpix shifted by hand)
+    d["frame"] (FRAMES; default icrs) is the celestial frame the header names: d["ra"], d["dec"] stay the ICRS position of
+    the reference pixel (the position classes of the family are classes of ICRS positions - that is where the TOAST tiles
+    live), CRVAL is that position expressed in the frame, d["equinox"] its equinox.  d["sip"] = {"a": [[p, q, coeff] ..],
+    "b": [..]} adds SIP distortion polynomials (pixel offsets from CRPIX; zero at the reference pixel)."""
     import numpy as np
     from astropy.wcs import WCS
     th = d["theta"]
     sc = d["scale"]
     cd = sc * np.array([[-math.cos(th), math.sin(th)], [d["parity"] * math.sin(th), d["parity"] * math.cos(th)]])
     w = WCS(naxis=2)
-    w.wcs.ctype = ["RA---" + d.get("proj", "TAN"), "DEC--" + d.get("proj", "TAN")]
-    w.wcs.crval = [d["ra"], d["dec"]]
+    lon_ax, lat_ax, radesys, has_eqx = FRAMES[d.get("frame", "icrs")]
+    sip = d.get("sip")
+    tail = "-" + d.get("proj", "TAN") + ("-SIP" if sip else "")
+    w.wcs.ctype = [lon_ax + tail, lat_ax + tail]
+    if radesys:
+        w.wcs.radesys = radesys
+    if has_eqx:
+        w.wcs.equinox = float(d.get("equinox", 1950.0 if radesys.startswith("FK4") else 1975.0))
     w.wcs.crpix = [d["crpix"][0], d["crpix"][1]]
     w.wcs.cd = cd
+    w.wcs.crval = [d["ra"], d["dec"]]
+    if d.get("frame", "icrs") != "icrs":
+        from astropy import units as u
+        from astropy.coordinates import SkyCoord
+        from astropy.wcs.utils import wcs_to_celestial_frame
+        c = SkyCoord(d["ra"] * u.deg, d["dec"] * u.deg, frame="icrs").transform_to(wcs_to_celestial_frame(w))
+        w.wcs.crval = [float(c.spherical.lon.deg), float(c.spherical.lat.deg)]
+
+    def sip_of(crpix):
+        from astropy.wcs import Sip
+        order = max(p + q for key in ("a", "b") for p, q, _c in sip[key])
+        ab = {key: np.zeros((order + 1, order + 1)) for key in ("a", "b")}
+        for key in ("a", "b"):
+            for p, q, coef in sip[key]:
+                ab[key][p, q] = coef
+        return Sip(ab["a"], ab["b"], None, None, crpix)
+    if sip:
+        w.sip = sip_of(w.wcs.crpix)
+        w.wcs.set()
     grid = d.get("grid", "none")
     if grid == "none" or "nx" not in d:
         return w
@@ -364,16 +455,18 @@ def make_wcs(d):
     elif grid == "array-shape-smaller":
         w.array_shape = (size[1], size[0])
     elif grid.startswith("header-"):
-        h = w.to_header()
+        h = w.to_header(relax=True)
         h["NAXIS"] = 2
         h["NAXIS1"], h["NAXIS2"] = size
         w = WCS(h)
     elif grid == "rebuilt":
-        w = WCS(w.to_header())
+        w = WCS(w.to_header(relax=True))
     elif grid == "sliced":
         ox, oy = dx, dy
         parent = w.deepcopy()
         parent.wcs.crpix = [d["crpix"][0] + ox, d["crpix"][1] + oy]
+        if sip:
+            parent.sip = sip_of(parent.wcs.crpix)
         parent.pixel_shape = (nx + ox + 3, ny + oy + 5)
         w = parent.slice((slice(oy, oy + ny), slice(ox, ox + nx)))
     else:
@@ -384,16 +477,41 @@ def make_wcs(d):
 def _summarise_calls(calls, nx, ny):
     """Per-axis sample sets of the recorded _image_bounds evaluation (1-based pixel coordinates)."""
     import numpy as np
-    out = {"n_calls": len(calls), "origin": sorted(set(c[1] for c in calls))}
+    out = {"n_calls": len(calls), "origin": sorted(set(c[2] for c in calls)), "methods": sorted(set(c[0] for c in calls))}
     if not calls:
         return out
-    p0 = calls[0][0].reshape((-1, 2))
+    p0 = calls[0][1]
     out["coarse"] = [sorted(set(np.round(p0[:, 0], 9).tolist())), sorted(set(np.round(p0[:, 1], 9).tolist()))]
     out["refined"] = []
-    for pix, _o, _r in calls[1:]:
-        pix = pix.reshape((-1, 2))
+    for _name, pix, _o in calls[1:]:
         out["refined"].append([sorted(set(np.round(pix[:, 0], 9).tolist())), sorted(set(np.round(pix[:, 1], 9).tolist()))])
     return out
+
+
+def box_from_samples(calls, w, box):
+    """Implementation-shaped conformance (premise of FootprintMap!NoFalseNegative: the filter's pixel -> sky map IS the
+    sampler's): the bounds _image_bounds returned must be the extremes, over the pixel samples it evaluated (calls 2..5:
+    lat min, lat max, lon min, lon max), of the ICRS positions the sampler's route gives those pixels.  -> None | text"""
+    import numpy as np
+    if len(calls) != 5 or box is None:
+        return None
+    lo, hi, la, lb = box
+    lat_a = pix2sky(w, calls[1][1])[1]
+    lat_b = pix2sky(w, calls[2][1])[1]
+    lon_a = pix2sky(w, calls[3][1])[0]
+    lon_b = pix2sky(w, calls[4][1])[0]
+    tol = 1e-9
+    msgs = []
+    if abs(float(lat_a.min()) - la) > tol:
+        msgs.append("lat_min %.9f deg, sampler's route gives %.9f over the same %d samples" % (math.degrees(la), math.degrees(lat_a.min()), lat_a.size))
+    if abs(float(lat_b.max()) - lb) > tol:
+        msgs.append("lat_max %.9f deg, sampler's route gives %.9f over the same %d samples" % (math.degrees(lb), math.degrees(lat_b.max()), lat_b.size))
+    for name, val, lons, sign in (("lon_min", lo, lon_a, 1.0), ("lon_max", hi, lon_b, -1.0)):
+        off = np.mod(sign * (lons - val) + math.pi, TWOPI) - math.pi       # >= 0 for every sample if val is the extreme
+        if abs(float(off.min())) > tol:
+            msgs.append("%s %.9f deg, sampler's route puts the extreme of the same %d samples at %.9f"
+                        % (name, math.degrees(val), lons.size, math.degrees(val + sign * float(off.min()))))
+    return "; ".join(msgs) if msgs else None
 
 
 class Footprint(object):
@@ -407,7 +525,7 @@ class Footprint(object):
         self.nx, self.ny = d["nx"], d["ny"]
         self.pix = math.radians(d["scale"])
         self.w = make_wcs(d)
-        self.rec = RecordingWCS(self.w)
+        self.rec = recording_wcs(make_wcs(d))       # the same WCS once more, as the recorder handed to the code under test
         data = np.ones((self.ny, self.nx), dtype=np.float32)          # no NaN: every image pixel is data; some are +-inf / +-0.0
         flat = data.reshape(-1)
         flat[::5] = np.array([np.inf, -np.inf, 0.0, -0.0, 3e38], dtype=np.float32)[np.arange(flat[::5].size) % 5]
@@ -418,12 +536,14 @@ class Footprint(object):
             self.f = self.ws.filter()
         except AssertionError as e:
             self.error = "filter() raised AssertionError %s" % (e,)
-        self.calls = _summarise_calls(self.rec.calls, self.nx, self.ny)
+        raw = list(rec_calls(self.rec))
+        self.calls = _summarise_calls(raw, self.nx, self.ny)
         self.box = None
         try:
             self.box = tuple(float(v) for v in self.ws._image_bounds())
         except Exception:  # noqa  (private helper renamed / removed: the search is then undirected)
             self.box = None
+        self.calls["box_vs_samples"] = box_from_samples(raw, self.w, self.box) if self.f is not None else None
         self.sampler = self.ws.sampler()
         # deepest level inside the monitor's domain: a tile still spans MIN_TILE_PX image pixels
         self.n_dom = int(max(1, min(12, math.floor(math.log2((math.pi / 2) / (MIN_TILE_PX * self.pix))) + 1)))
@@ -441,9 +561,9 @@ class Footprint(object):
                               np.stack([tx[::-1], np.full_like(tx, ny + 0.5 - inset)], 1), np.stack([np.full_like(ty, 0.5 + inset), ty[::-1]], 1)])
         gx, gy = np.meshgrid(np.linspace(0.5 + inset, nx + 0.5 - inset, 24), np.linspace(0.5 + inset, ny + 0.5 - inset, 24))
         pts = np.concatenate([per, np.stack([gx.ravel(), gy.ravel()], 1)])
-        wl = np.radians(w.wcs_pix2world(pts, 1))
-        ok = np.isfinite(wl[:, 0]) & np.isfinite(wl[:, 1])
-        self.pts, self.lon, self.lat = pts[ok], wl[ok, 0], wl[ok, 1]
+        wlon, wlat = pix2sky(w, pts)              # the true footprint: the image edge through the sampler's own route
+        ok = np.isfinite(wlon) & np.isfinite(wlat)
+        self.pts, self.lon, self.lat = pts[ok], wlon[ok], wlat[ok]
         s0, sw = min_arc(self.lon)
         if sw > TWOPI - 4 * self.pix:
             s0, sw = 0.0, TWOPI
@@ -492,8 +612,14 @@ class Footprint(object):
         fin = ~np.isnan(self.sampler(tlon, tlat))
         if not fin.any():
             return 0, 0
-        px = np.asarray(self.w.wcs_world2pix(np.degrees(tlon[fin]), np.degrees(tlat[fin]), 1))
+        px = sky2pix(self.w, tlon[fin], tlat[fin])
         inside = ((px[0] >= 0.5 + TAU) & (px[0] <= self.nx + 0.5 - TAU) & (px[1] >= 0.5 + TAU) & (px[1] <= self.ny + 0.5 - TAU))
+        if inside.any() and self.d.get("sip"):
+            # a pixel centre INSIDE THE FOOTPRINT: the pixel position the (iterative) inverse of a distorted WCS reports must
+            # map back onto the direction it was computed for (far from the image that inverse need not converge)
+            blon, blat = pix2sky(self.w, np.stack([px[0][inside], px[1][inside]], 1))
+            sep = np.hypot((np.mod(blon - tlon[fin][inside] + math.pi, TWOPI) - math.pi) * np.cos(blat), blat - tlat[fin][inside])
+            inside[np.flatnonzero(inside)[sep > 0.01 * self.pix]] = False
         return int(fin.sum()), int(inside.sum())
 
     def witness(self, tile, first, how):
@@ -503,7 +629,7 @@ class Footprint(object):
             return None
         c = np.asarray(snapshot(tile))
         side = float(np.min(np.hypot((c[:, 0] - np.roll(c[:, 0], 1)) * np.cos(c[:, 1]), c[:, 1] - np.roll(c[:, 1], 1))))
-        return {"footprint": {k: self.d[k] for k in ("nx", "ny", "scale", "theta", "parity", "ra", "dec", "crpix", "proj", "grid", "grid_delta") if k in self.d},
+        return {"footprint": {k: self.d[k] for k in ("nx", "ny", "scale", "theta", "parity", "ra", "dec", "crpix", "proj", "grid", "grid_delta", "frame", "equinox", "sip") if k in self.d},
                 "tile": tuple(tile.pos), "rejected_at": first, "finite_pixels": fin, "pixels_well_inside": inside,
                 "tile_side_px": side / self.pix, "box_deg": None if self.box is None else [math.degrees(v) for v in self.box],
                 "true_lat_deg": [math.degrees(self.R[0]), math.degrees(self.R[1])], "search": how}
@@ -585,9 +711,9 @@ def footprint_task(d):
         # inward direction in pixel coordinates, by finite differences through the WCS
         eps = 0.01
         J = np.empty((2, 2))
-        for a, dxy in enumerate(((eps, 0.0), (0.0, eps))):
-            q = np.radians(fp.w.wcs_pix2world(np.array([[fp.pts[k, 0] + dxy[0], fp.pts[k, 1] + dxy[1]]]), 1))[0]
-            J[:, a] = (((q[0] - lon0 + math.pi) % TWOPI - math.pi) * math.cos(lat0) / eps, (q[1] - lat0) / eps)
+        qlon, qlat = pix2sky(fp.w, np.array([[fp.pts[k, 0] + eps, fp.pts[k, 1]], [fp.pts[k, 0], fp.pts[k, 1] + eps]]))
+        for a in range(2):
+            J[:, a] = (((qlon[a] - lon0 + math.pi) % TWOPI - math.pi) * math.cos(lat0) / eps, (qlat[a] - lat0) / eps)
         try:
             step_pix = np.linalg.solve(J, -ovec * 0.03 * fp.pix)      # 0.03 px further inward than the exposed point
         except np.linalg.LinAlgError:
@@ -612,8 +738,22 @@ def footprint_task(d):
                 tlon, tlat = toast.toast_tile_get_coords(t)
                 iy, ix = ((0, 0), (0, 255), (255, 255), (255, 0))[j]        # the pixel centre next to corner j
                 d2 = dict(d)
-                d2["crpix"] = [float(anchor_pix[0]), float(anchor_pix[1])]
-                d2["ra"], d2["dec"] = math.degrees(tlon[iy, ix]) % 360.0, math.degrees(tlat[iy, ix])
+                if not d.get("sip"):
+                    d2["crpix"] = [float(anchor_pix[0]), float(anchor_pix[1])]
+                    d2["ra"], d2["dec"] = math.degrees(tlon[iy, ix]) % 360.0, math.degrees(tlat[iy, ix])
+                else:
+                    # the distortion polynomials are in offsets from CRPIX: the reference pixel stays where it is (the image
+                    # keeps its shape) and the image is moved on the sky until the anchor pixel lies on the pixel centre
+                    for _it in range(6):
+                        alon, alat = pix2sky(make_wcs(d2), anchor_pix.reshape((1, 2)))
+                        dlon = (tlon[iy, ix] - alon[0] + math.pi) % TWOPI - math.pi
+                        dlat = tlat[iy, ix] - alat[0]
+                        if math.hypot(dlon * math.cos(tlat[iy, ix]), dlat) < 1e-4 * fp.pix:
+                            break
+                        d2["ra"] = (d2["ra"] + math.degrees(dlon)) % 360.0
+                        d2["dec"] = max(-89.999, min(89.999, d2["dec"] + math.degrees(dlat)))
+                    else:
+                        continue
                 fp2 = Footprint(d2)
                 res["reanchored"] += 1
                 if fp2.error:
@@ -1095,7 +1235,29 @@ def gen_boxes(rng, n):
 QUICK_SIZES = [1, 2, 3, 5, 8, 12, 15, 16, 17, 20, 24, 28, 31, 32, 33, 48, 64, 100, 257, 600]
 
 
-def gen_footprint(rng, ident, nx, ny, klass):
+SIP_MIN_AXIS = 24        # px: shorter axes leave no room for a distortion of a pixel or more inside the limits below
+
+
+def gen_sip(rng, nx, ny):
+    """SIP polynomials A (x) and B (y) of order 2-3 whose terms add up to `amp` pixels at the image corners: between 1 and 4 px,
+    at most 1/8 of the shorter half-axis h (the distorted pixel grid stays far from folding over, and the iterative inverse
+    the sampler relies on converges out to many image sizes around the footprint) and at most 0.04 h^2 (the bend of an edge
+    between two samples one pixel apart stays below 0.02 px, far below TAU)."""
+    hx, hy = nx / 2.0, ny / 2.0
+    h = min(hx, hy)
+    amp = min(rng.uniform(1.0, 4.0), h / 8.0, 0.04 * h * h)
+    out = {}
+    for key in ("a", "b"):
+        quad = rng.sample([(2, 0), (1, 1), (0, 2)], rng.choice([1, 2, 3]))
+        terms = [(p, q, rng.choice([-1.0, 1.0]) * rng.uniform(0.5, 1.0) * amp / len(quad)) for p, q in quad]
+        if rng.random() < 0.4:
+            p, q = rng.choice([(3, 0), (2, 1), (1, 2), (0, 3)])
+            terms.append((p, q, rng.choice([-1.0, 1.0]) * rng.uniform(0.5, 1.0) * amp / 4.0))
+        out[key] = [[p, q, c / (hx ** p * hy ** q)] for p, q, c in sorted(terms)]
+    return out, amp
+
+
+def gen_footprint(rng, ident, nx, ny, klass, frame="icrs", sip=False):
     big = max(nx, ny)
     smax = min(0.15, 30.0 / big)
     if klass == "nearpole":
@@ -1126,16 +1288,23 @@ def gen_footprint(rng, ident, nx, ny, klass):
     delta = (rng.randint(0, max(1, nx // 3)), rng.randint(0, max(1, ny // 3)))
     if delta == (0, 0):
         delta = (1, 1)
-    return {"id": ident, "nx": nx, "ny": ny, "scale": scale, "theta": theta, "parity": parity, "ra": ra, "dec": dec,
-            "crpix": crpix, "klass": klass, "grid": grid, "grid_delta": delta}
+    d = {"id": ident, "nx": nx, "ny": ny, "scale": scale, "theta": theta, "parity": parity, "ra": ra, "dec": dec,
+         "crpix": crpix, "klass": klass, "grid": grid, "grid_delta": delta}
+    if frame != "icrs":
+        d["frame"] = frame
+        if FRAMES[frame][3]:        # an equinox far enough from J2000 for the frame to differ from ICRS by many pixels
+            d["equinox"] = 1950.0 if frame.startswith("fk4") and rng.random() < 0.5 else rng.choice([rng.uniform(1900.0, 1985.0), rng.uniform(2030.0, 2080.0)])
+    if sip:
+        d["sip"], d["sip_amp_px"] = gen_sip(rng, nx, ny)
+    return d
 
 
 def gen_footprints(rng, quick):
     out = []
     S = QUICK_SIZES
 
-    def add(nx, ny, klass):
-        out.append(gen_footprint(rng, len(out), nx, ny, klass))
+    def add(nx, ny, klass, frame="icrs", sip=False):
+        out.append(gen_footprint(rng, len(out), nx, ny, klass, frame, sip and min(nx, ny) >= SIP_MIN_AXIS))
     for L in S:
         add(L, L, "generic")
         add(L, rng.choice(S), "generic")
@@ -1152,7 +1321,27 @@ def gen_footprints(rng, quick):
         add(nx, ny, "poleinside")
         ix, iy = rng.randint(8, 22), rng.randint(8, 22)
         out[-1]["crpix"] = [0.5 + (ix + fx) * nx / 31.0, 0.5 + (iy + fy) * ny / 31.0]
+    # ... in the celestial frames a header can name (the footprint is where the SAMPLER finds the image: the frame converted
+    # to ICRS) and with distortion polynomials of a few pixels (the sampler applies them), alone and combined
+    others = [f for f in FRAMES if f != "icrs"]
+    for k, frame in enumerate(others):
+        add(rng.choice([24, 48, 100]), rng.choice([20, 64, 257]), ["generic", "ra0", "nearpole"][k % 3], frame)
+    add(120, 90, "poleinside", rng.choice(["galactic", "fk5"]))
+    for nx, ny, klass in ((48, 64, "generic"), (257, 100, "ra0"), (600, 64, "nearpole"), (33, 200, "generic"), (300, 257, "poleinside")):
+        add(nx, ny, klass, "icrs", True)
+    add(64, 48, "generic", "galactic", True)
+    add(100, 257, "ra0", "fk4", True)
     if not quick:
+        for rep in range(4):
+            for frame in others:
+                for klass in ("generic", "ra0", "nearpole"):
+                    add(rng.choice(S), rng.choice(S), klass, frame, rng.random() < 0.3)
+                add(rng.choice([48, 120, 300]), rng.choice([64, 257, 600]), "poleinside", frame, rng.random() < 0.3)
+        for L in S:
+            if L >= SIP_MIN_AXIS:
+                for klass in ("generic", "ra0", "nearpole"):
+                    add(L, rng.choice([x for x in S if x >= SIP_MIN_AXIS]), klass, "icrs", True)
+                    add(rng.choice([x for x in S if x >= SIP_MIN_AXIS]), L, klass, rng.choice(list(FRAMES)), True)
         for nx in range(1, 65):
             for ny in range(1, 65):
                 add(nx, ny, rng.choice(["generic", "generic", "ra0", "nearpole"]))
@@ -1276,14 +1465,25 @@ def ib_module(lengths):
 
 def compare_sample_sets(ctx, fps, results, tables):
     """Recorded pixel coordinates of the real _image_bounds against TLC's sets (deviation = drift, never a violation)."""
-    nset = ndev = nshort = 0
+    nset = ndev = nshort = nbox = nboxdev = 0
+    methods = set()
     for d, r in zip(fps, results):
         calls = r.get("calls")
-        if not calls or calls.get("n_calls") != 5 or calls.get("origin") != [1]:
+        if calls:
+            methods.update(calls.get("methods", []))
+        if not calls or calls.get("n_calls") != 5:
             if calls is not None and d["id"] < 3:
-                ctx.drift("_image_bounds evaluated wcs_pix2world %s times (origins %s); the spec describes 1 coarse + 4 refined evaluations with origin 1"
-                          % (calls.get("n_calls"), calls.get("origin")))
+                ctx.drift("_image_bounds evaluated the WCS's pixel -> world map (%s) %s times; the spec describes 1 coarse + 4 refined evaluations"
+                          % (" / ".join(calls.get("methods", [])) or "neither wcs_pix2world nor all_pix2world", calls.get("n_calls")))
             continue
+        if not r.get("error"):
+            nbox += 1
+            if calls.get("box_vs_samples"):
+                nboxdev += 1
+                if nboxdev <= 3:
+                    ctx.drift("footprint %dx%d (frame %s%s): the bounds _image_bounds returns are not the extremes, over the pixel samples it evaluated, of the "
+                              "ICRS positions the sampler's route (distortion terms applied, the WCS's frame converted) gives those pixels: %s"
+                              % (d["nx"], d["ny"], d.get("frame", "icrs"), ", SIP" if d.get("sip") else "", calls["box_vs_samples"]))
         for ax, L in ((0, d["nx"]), (1, d["ny"])):
             tab = tables[L]
             coarse = [x / 62.0 for x in tab["coarse"]]
@@ -1313,6 +1513,8 @@ def compare_sample_sets(ctx, fps, results, tables):
     ctx.note("sample_sets_compared", nset)
     ctx.note("sample_sets_deviating", ndev)
     ctx.note("sample_sets_missing_far_end", nshort)
+    ctx.note("sample_sets_evaluated_through", sorted(methods))
+    ctx.note("bounds_compared_with_extremes_of_the_recorded_samples_through_the_samplers_route", "%d footprints, %d deviating" % (nbox, nboxdev))
     ctx.trace_ok(nset)
 
 
@@ -1642,7 +1844,7 @@ def _run(ctx, pool, scratch, quick, rng):
     for d, r in zip(fps, results):
         ctx.count(1 + r["samples"])
         if r["tiles_seen"]:
-            ctx.distinct(("foot", d["nx"], d["ny"], round(d["scale"], 6), round(d["ra"], 4), round(d["dec"], 4)))
+            ctx.distinct(("foot", d["nx"], d["ny"], round(d["scale"], 6), round(d["ra"], 4), round(d["dec"], 4), d.get("frame", "icrs"), bool(d.get("sip"))))
         if r["exposure_px"] > 0:
             nexp += 1
             maxexp = max(maxexp, r["exposure_px"])
@@ -1656,9 +1858,11 @@ def _run(ctx, pool, scratch, quick, rng):
         fpd = v["footprint"]
         _violation(ctx, "C07:wcs-filter:false-negative",
                       "WcsSampler.filter() rejects tile %s (first rejection on its path: %s) although %d of its pixel centres sample finite image data "
-                      "(%d of them more than %.2f px inside the image); image %dx%d px of %.4f deg at RA %.4f Dec %.4f, box (deg) %s, true latitude range %s; "
+                      "(%d of them more than %.2f px inside the image); image %dx%d px of %.4f deg at ICRS RA %.4f Dec %.4f, WCS frame %s%s, box (deg) %s, true latitude range %s; "
                       "tile side %.1f image px [%s; grid size recorded by the WCS: %s]"
                       % (v["tile"], v["rejected_at"], v["finite_pixels"], v["pixels_well_inside"], TAU, fpd["nx"], fpd["ny"], fpd["scale"], fpd["ra"], fpd["dec"],
+                         fpd.get("frame", "icrs") + (" equinox %.1f" % fpd["equinox"] if "equinox" in fpd else ""),
+                         " with SIP distortion %s" % ({k: [[p, q, float("%.3g" % c)] for p, q, c in fpd["sip"][k]] for k in ("a", "b")},) if fpd.get("sip") else "",
                          v["box_deg"], v["true_lat_deg"], v["tile_side_px"], v["search"], fpd.get("grid", "none")), v)
     ctx.note("footprints", len(fps))
     ctx.note("footprints_sticking_out_of_their_box", "%d (max %.3f px)" % (nexp, maxexp))
